@@ -87,6 +87,10 @@ func (m *MMap) Sync() error {
 		vhook.IO("sync", m.file.Name(), m.virtualSize, 0, nil)
 		defer vhook.IO("syncDone", m.file.Name(), m.virtualSize, 0, nil)
 	}
+	// 映射区域尚未建立时无数据可刷新
+	if m.activeMap == nil {
+		return nil
+	}
 	return m.activeMap.Flush()
 }
 
@@ -96,13 +100,11 @@ func (m *MMap) Close() error {
 		defer vhook.IO("closeDone", m.file.Name(), m.virtualSize, 0, nil)
 	}
 	vhook.IO("sync", m.file.Name(), m.virtualSize, 0, nil)
-	if err := m.activeMap.Flush(); err != nil {
+	if err := m.Sync(); err != nil {
 		return err
 	}
 	vhook.IO("syncDone", m.file.Name(), m.virtualSize, 0, nil)
-	if err := m.activeMap.Unmap(); err != nil {
-		return err
-	}
+	// ResetFileSize 负责解除映射并将文件收缩为真实大小
 	if err := m.ResetFileSize(); err != nil {
 		return err
 	}
@@ -115,6 +117,17 @@ func (m *MMap) Size() (int64, error) {
 
 func (m *MMap) ResetFileSize() error {
 	vhook.IO("truncate", m.file.Name(), m.virtualSize, 0, nil)
+	// 文件收缩后原映射区域超出文件末尾的部分不可再访问, 需解除映射
+	// 并重置映射边界, 使后续读写重新扩展文件并建立映射
+	if m.activeMap != nil {
+		if err := m.activeMap.Flush(); err != nil {
+			return err
+		}
+		if err := m.activeMap.Unmap(); err != nil {
+			return err
+		}
+	}
+	m.endOff = 0
 	return m.file.Truncate(m.virtualSize)
 }
 
